@@ -20,6 +20,9 @@ from __future__ import annotations
 import time
 from fractions import Fraction
 
+import os
+import sys
+import json
 import numpy as np
 
 from harness import core, exprs
@@ -438,6 +441,53 @@ def shared_jit_case(ctx):
                     what=f"{name} compiled once and applied to problem {k}: coefficients deviate by {dev:.2e} from the eager call on the same problem")
 
 
+X64_LATE_SCRIPT = r"""
+import os, sys, json
+os.environ["JAX_PLATFORMS"] = "cpu"
+os.environ.pop("JAX_ENABLE_X64", None)
+from probdiffeq import probdiffeq          # import first ...
+import jax
+jax.config.update("jax_enable_x64", True)  # ... enable double precision afterwards (the order of the repository's examples)
+import jax.numpy as jnp
+vf = probdiffeq.ode(lambda u, /, *, t: 0.5 * u * (1 - u) + t)
+u0 = jnp.asarray([0.5, -0.25]); t0 = 0.25
+out = {}
+for name, alg in (("padded_scan", probdiffeq.jetexpand_ode_padded_scan(num=7)), ("unroll", probdiffeq.jetexpand_ode_unroll(num=7)),
+                  ("via_jvp", probdiffeq.jetexpand_ode_via_jvp(num=7)), ("doubling", probdiffeq.jetexpand_ode_doubling_unroll(num_doublings=3))):
+    tc = alg(vf, (u0,), t=t0)[0]
+    out[name] = [[float(x) for x in jnp.asarray(c).reshape(-1)] for c in tc[:8]]
+    out[name + ":dtype"] = str(jnp.asarray(tc[-1]).dtype)
+print(json.dumps(out))
+"""
+
+
+def x64_enabled_late_case(ctx):
+    """double precision switched on *after* `import probdiffeq` (as in the repository's examples and benchmarks): nothing
+    may have been frozen in single precision at import time; all routines return float64 coefficients that agree with one
+    another to double precision (seeded change C10-s9: a factorial table built at import)"""
+    import subprocess
+
+    env = dict(os.environ)
+    env.pop("JAX_ENABLE_X64", None)
+    p = subprocess.run([sys.executable, "-c", X64_LATE_SCRIPT], capture_output=True, text=True, env=env, timeout=600)
+    case = {"mode": "x64 enabled after import (fresh interpreter)", "field": "0.5 u (1-u) + t", "u0": [0.5, -0.25], "t0": 0.25}
+    ctx.case(case)
+    ctx.count("x64-enabled-late")
+    if p.returncode != 0:
+        ctx.violation("x64-late:raised", "Taylor routines raised when double precision is enabled after the import: " + p.stderr[-300:], case)
+        return
+    out = json.loads(p.stdout.strip().splitlines()[-1])
+    ref = np.asarray(out["via_jvp"], dtype=np.float64)
+    for name in ("padded_scan", "unroll", "doubling"):
+        if out[name + ":dtype"] != "float64":
+            ctx.violation(f"x64-late:{name}:dtype", f"{name} returns {out[name + ':dtype']} coefficients in a double-precision session", dict(case, routine=name))
+            continue
+        got = np.asarray(out[name], dtype=np.float64)
+        dev = float(np.max(np.abs(got - ref) / (np.abs(ref) + 1e-3 * np.max(np.abs(ref), axis=1, keepdims=True))))
+        ctx.dev("x64-late.agreement", dev, 1e-11, case=dict(case, routine=name), sig=f"x64-late:{name}:value",
+                what=f"{name} deviates from via_jvp by {dev:.2e} when double precision is enabled after the import")
+
+
 def implicit_series(a, b, c, e, u0, v0_unused, t0, n):
     """exact Taylor coefficients (unnormalised derivatives u, u', ..., u^(n)) of the solution of the implicit problem
     u' + a u'^3 = b u + c t + e, u(t0) = u0, on the branch u'(t0) = r (e is chosen by the caller such that r is rational);
@@ -555,6 +605,7 @@ def run(ctx):
 
     implicit_residual_corpus(ctx)
     shared_jit_case(ctx)
+    x64_enabled_late_case(ctx)
     # residual route (Gauss-Newton on a diffuse prior)
     n_res = ctx.n(4, 30)
     for i in range(n_res):
